@@ -315,26 +315,11 @@ fn append_character_string(out: &mut Vec<u8>, ascii_str: &str) -> Result<(), Mdn
         return Err(MdnsResponseError::NonAsciiMultiaddr);
     }
 
-    if !ascii_str.bytes().any(|c| c == b' ') {
-        out.extend_from_slice(ascii_str.as_bytes());
-        return Ok(());
-    }
-
-    out.push(b'"');
-
-    for &chr in ascii_str.as_bytes() {
-        if chr == b'\\' {
-            out.push(b'\\');
-            out.push(b'\\');
-        } else if chr == b'"' {
-            out.push(b'\\');
-            out.push(b'"');
-        } else {
-            out.push(chr);
-        }
-    }
-
-    out.push(b'"');
+    // On the wire a `<character-string>` is a length-prefixed byte string (RFC 1035, 3.3);
+    // quoting and escaping belong to the zone-file presentation format only. Quoting here
+    // made the content longer than the length byte written by `append_txt_record`, which
+    // corrupted the whole packet for values containing a space.
+    out.extend_from_slice(ascii_str.as_bytes());
     Ok(())
 }
 
